@@ -134,12 +134,31 @@ def check_case(ctx, case, rng):
             inc = cs._make_struct("T", [], align=cfgd["align"], base=base)
             if cfgd["compiled"] and base is Structure:
                 inc = compiler.compile(inc)
-            used = raised = 0
+            used = raised = refused = 0
             try:
                 for kind, idxs in steps:
                     if rng.random() < 0.4:
                         use_intermediate(inc, rng)
                         used += 1
+                    if inc.__fields__ and rng.random() < 0.25:
+                        # an extension the structure refuses (a name it already has), alone or inside a batch with a
+                        # good field: it raises and leaves nothing behind, later extensions work as before
+                        dup = rng.choice(inc.__fields__)
+                        if dup.name is not None and dup.name != "_" and not dup.name.startswith("__anonymous"):
+                            try:
+                                if rng.random() < 0.5:
+                                    inc.add_field(dup.name, dup.type, bits=dup.bits)
+                                else:
+                                    with inc.start_update():
+                                        inc.add_field("zz_extra", cs.uint8)
+                                        inc.add_field(dup.name, dup.type, bits=dup.bits)
+                                refused_ok = False
+                            except ValueError:
+                                refused_ok = True
+                            refused += 1
+                            if not refused_ok:
+                                viol("build", "duplicate-field-name-accepted", steps=steps, name=dup.name)
+                                break
                     if kind == "single":
                         f = T.__fields__[idxs[0]]
                         inc.add_field(f.name, f.type, bits=f.bits)
@@ -171,6 +190,8 @@ def check_case(ctx, case, rng):
                 ctx.cell("instances-exist-before-extension")
             if raised:
                 ctx.cell("batch-left-by-exception")
+            if refused:
+                ctx.cell("refused-extension-in-between")
             if sig_without_name(inc) != sig_without_name(T):
                 viol("layout", "incremental-layout-differs-from-one-shot", steps=steps,
                      got=repr(sig_without_name(inc))[:500], want=repr(sig_without_name(T))[:500])
@@ -280,9 +301,86 @@ def self_reference(ctx):
                               {"text": text2, "error": lib.exc_sig(e)})
 
 
+def special_sequences(ctx, rng):
+    """Field sequences the generator does not produce, built in every split: repeated discard fields (`_`), and a
+    structure that was already used as an array element / member of another one before it is extended."""
+    from dissect.cstruct import compiler
+    from dissect.cstruct.types.structure import Structure
+
+    # (a) a, _, b, _, c
+    for compiled in (True, False):
+        for align in (False, True):
+            one = lib.load("struct T { uint8 a; uint8 _; uint16 b; uint8 _; uint32 c; };", "<", align, compiled)
+            T = one.T
+            data = bytes(range(1, 40))
+            want = (sig_without_name(T), source_of(T), [f.name for f in T.__fields__], repr(T(data)), T(data).dumps())
+            for pattern in ([1, 1, 1, 1, 1], [2, 3], [2, 1, 2], [4, 1], [1, 4], [5], [3, 2], [1, 2, 2]):
+                ctx.evaluation(("discard-sequence", compiled, align, repr(pattern)))
+                ctx.cell("discard-fields-sequence")
+                det = {"workload": "special-sequences", "pattern": pattern, "compiled": compiled, "align": align}
+                try:
+                    cs = lib.cstruct()
+                    inc = cs._make_struct("T", [], align=align, base=Structure)
+                    if compiled:
+                        inc = compiler.compile(inc)
+                    i = 0
+                    for k in pattern:
+                        if k == 1:
+                            f = T.__fields__[i]
+                            inc.add_field(f.name, getattr(cs, f.type.__name__), bits=f.bits)
+                        else:
+                            with inc.start_update():
+                                for f in T.__fields__[i:i + k]:
+                                    inc.add_field(f.name, getattr(cs, f.type.__name__), bits=f.bits)
+                        i += k
+                    got = (sig_without_name(inc), source_of(inc), [f.name for f in inc.__fields__], repr(inc(data)),
+                           inc(data).dumps())
+                except Exception as e:  # noqa: BLE001
+                    ctx.violation("build", f"incremental-build-raises:{type(e).__name__}", dict(det, error=lib.exc_sig(e)))
+                    continue
+                if got != want:
+                    k = next(j for j, (a, b) in enumerate(zip(got, want)) if a != b)
+                    ctx.violation("behaviour", "incremental-structure-behaves-differently",
+                                  dict(det, got=repr(got[k])[:300], want=repr(want[k])[:300]))
+    # (b) Elem[n] / a container of Elem exist at an intermediate state; after the extension a *new* request for the
+    # same array type, and a newly declared container, are those of the complete Elem
+    for compiled in (True, False):
+        for n in (1, 2, 3):
+            ctx.evaluation(("array-of-intermediate", compiled, n))
+            ctx.cell("array-of-intermediate-state")
+            det = {"workload": "special-sequences", "compiled": compiled, "n": n}
+            try:
+                cs = lib.cstruct()
+                elem = cs._make_struct("Elem", [], base=Structure)
+                if compiled:
+                    elem = compiler.compile(elem)
+                cs.add_type("Elem", elem)
+                elem.add_field("x", cs.uint8)
+                early = elem[n]                      # looked at while incomplete
+                cs.load(f"struct Early {{ Elem items[{n}]; }};", compiled=compiled)
+                elem.add_field("y", cs.uint16)
+                elem.add_field("z", cs.uint8)
+                late = elem[n]
+                cs.load(f"struct Box {{ uint8 head; Elem items[{n}]; uint16 tail; }};", compiled=compiled)
+                ref = lib.load(f"struct Elem {{ uint8 x; uint16 y; uint8 z; }};\nstruct Box {{ uint8 head; Elem items[{n}]; "
+                               f"uint16 tail; }};", "<", False, compiled)
+                data = bytes(range(1, 60))
+                got = (late.size, len(cs.Box), repr(cs.Box(data)), cs.Box(data).dumps(), [f.offset for f in cs.Box.__fields__])
+                want = (4 * n, len(ref.Box), repr(ref.Box(data)), ref.Box(data).dumps(), [f.offset for f in ref.Box.__fields__])
+            except Exception as e:  # noqa: BLE001
+                ctx.violation("build", f"incremental-build-raises:{type(e).__name__}", dict(det, error=lib.exc_sig(e)))
+                continue
+            if got != want:
+                k = next(j for j, (a, b) in enumerate(zip(got, want)) if a != b)
+                ctx.violation("behaviour", "array-or-container-of-an-extended-structure-keeps-the-intermediate-state",
+                              dict(det, got=repr(got[k])[:300], want=repr(want[k])[:300]))
+
+
 def run(ctx):
     if ctx.shard == 0:
         self_reference(ctx)
+    if ctx.shard == 1:
+        special_sequences(ctx, ctx.rng("special"))
     for i in range(N_CASES[ctx.tier]):
         if ctx.out_of_time():
             break
@@ -299,6 +397,7 @@ def replay(ctx, detail):
     if "ast" not in detail:
         print("record:", detail)
         self_reference(ctx)
+        special_sequences(ctx, random.Random(0))
         return
     case = engine.case_from_detail(detail)
     print("definition:\n" + case["text"])
